@@ -62,6 +62,10 @@ func (g *cGraph) content(i int) string {
 	case "missingImport":
 		fmt.Fprintf(&b, "import /missing_%d\n", i)
 	}
+	if kind, ok := strings.CutPrefix(g.fault(i), "badForeign:"); ok {
+		// imports a Swagger file the converter cannot digest (it returns an error, or fails itself)
+		fmt.Fprintf(&b, "import /broken_%d.%s.yaml as Foreign%d :: Api ~swagger\n", i, kind, i)
+	}
 	if ext, ok := strings.CutPrefix(g.fault(i), "badModel:"); ok {
 		// imports a compiled model whose content is damaged (the file is there and can be read)
 		fmt.Fprintf(&b, "import /broken_%d.%s\n", i, ext)
@@ -210,6 +214,12 @@ func (r *gateReader) ReadHashBranch(_ context.Context, p string) ([]byte, retrie
 	idx := r.g.index(p)
 	if base := path.Base(strings.ReplaceAll(p, "\\", "/")); strings.HasPrefix(base, "broken_") {
 		switch {
+		case strings.HasSuffix(base, ".np.yaml"):
+			return []byte("swagger: '2.0'\npaths:\n  /a:\n    get:\n      parameters:\n        - null\n"), retriever.ZeroHash, "", nil
+		case strings.HasSuffix(base, ".cut.yaml"):
+			return []byte("swagger: '2.0'\ninfo: {title: t, version: '1'}\npaths:\n  /pets:\n"), retriever.ZeroHash, "", nil
+		case strings.HasSuffix(base, ".gb.yaml"):
+			return []byte("{[}\n"), retriever.ZeroHash, "", nil
 		case strings.HasSuffix(base, ".textpb"):
 			return []byte("apps { key: \"Broken\" value { name { part: \"Broken\" } endpoints { key: \"E\" value { name: \"E\" stmt {"), retriever.ZeroHash, "", nil
 		case strings.HasSuffix(base, ".json"):
@@ -358,7 +368,7 @@ func runGated(g *cGraph, picks []int) *cRun {
 					newArr++
 				}
 			}
-			if (g.fault(idx) == "missingImport" || strings.HasPrefix(g.fault(idx), "badModel:")) && !(g.Max > 0 && d+1 >= g.Max) {
+			if (g.fault(idx) == "missingImport" || strings.HasPrefix(g.fault(idx), "badModel:") || strings.HasPrefix(g.fault(idx), "badForeign:")) && !(g.Max > 0 && d+1 >= g.Max) {
 				newArr++
 			}
 		}
@@ -489,7 +499,7 @@ func (g *cGraph) oracleReq(order []int) map[string]any {
 		if f == "missingImport" {
 			ims = append(ims, g.N+i) // a file that does not exist; its import line is the last one
 		}
-		if strings.HasPrefix(f, "badModel:") && f != "readErr" {
+		if strings.HasPrefix(f, "badModel:") || strings.HasPrefix(f, "badForeign:") {
 			ims = append(ims, g.N+i) // a compiled model that is read but cannot be decoded: fails in the parse phase
 			brokenNodes = append(brokenNodes, g.N+i)
 		}
@@ -788,7 +798,7 @@ func c06IsBodyFault(f string) bool {
 }
 
 func c06AddFaults(r *Rand, g *cGraph) {
-	kinds := []string{"readErr", "syntaxImport", "syntaxBody", "truncated", "missingImport", "badModel:textpb", "badModel:pb", "badModel:pb.json"}
+	kinds := []string{"readErr", "syntaxImport", "syntaxBody", "truncated", "missingImport", "badModel:textpb", "badModel:pb", "badModel:pb.json", "badForeign:np", "badForeign:cut", "badForeign:gb"}
 	var tk []string
 	for k := range c06TruncTails {
 		tk = append(tk, k)
@@ -1107,7 +1117,7 @@ func c06Direct(res *Result, g *cGraph, run *cRun, in any) {
 			continue
 		}
 		within := g.Max == 0 || d < g.Max
-		if k == "missingImport" || strings.HasPrefix(k, "badModel:") {
+		if k == "missingImport" || strings.HasPrefix(k, "badModel:") || strings.HasPrefix(k, "badForeign:") {
 			within = g.Max == 0 || d+1 < g.Max
 		}
 		if !within {
@@ -1119,8 +1129,8 @@ func c06Direct(res *Result, g *cGraph, run *cRun, in any) {
 		if k == "missingImport" {
 			failing = append(failing, fmt.Sprintf("missing_%d", f))
 		}
-		if strings.HasPrefix(k, "badModel:") {
-			// the damaged model is what fails, not the file that imports it
+		if strings.HasPrefix(k, "badModel:") || strings.HasPrefix(k, "badForeign:") {
+			// the damaged model / foreign file is what fails, not the file that imports it
 			failing = append(failing, fmt.Sprintf("broken_%d", f))
 			continue
 		}
